@@ -3,14 +3,18 @@ C12 — mean stress transformation follows the iso-damage lines of the Haigh dia
 Property theorems about the model `Model/Meanstress.lean` (carrier ℝ).  Helper lemmas:
 `Proofs/Lemmas/Meanstress.lean` (generic: every segment shift conserves the damage potential),
 `Proofs/Lemmas/MeanstressGoodman.lean` (FKM-Goodman: processing order, arrival, potential),
+`Proofs/Lemmas/MeanstressGuard.lean` (FKM-Goodman: the guard holds for every cycle and target),
 `Proofs/Lemmas/MeanstressRebin.lean` (re-binning).
 
 Admissible R values (`ValidR`): a real number ≠ 1, or -∞ (what `load_collective.R` produces for a cycle of
 positive amplitude; targets `1` and `+∞` are outside the domain of the code).
 `TransformGuard D g c` is the property's restriction "the exact iso-damage amplitude stays positive",
 spelled out along the run the code makes: a finite conjunction of comparisons of real numbers.
+For the FKM-Goodman diagram with `0 ≤ M2`, `0 ≤ M < 1` it holds for every cycle and every admissible target
+(`goodman_guard`), so the FKM-Goodman theorems below carry no guard hypothesis.
 -/
 import Proofs.Lemmas.MeanstressGoodman
+import Proofs.Lemmas.MeanstressGuard
 import Proofs.Lemmas.MeanstressRebin
 
 namespace PylifeVerif.C12
@@ -85,8 +89,9 @@ theorem goodman_arrives_at_target (M M2 : ℝ) (g : ExtR ℝ) (c : Cyc ℝ) (hg 
 
 /-- The code's result equals the closed-form FKM-Goodman formula, for every cycle and every target. -/
 theorem goodman_eq_closed_form (M M2 : ℝ) (h0 : 0 ≤ M2) (h1 : 0 ≤ M) (h2 : M < 1) (g : ExtR ℝ) (c : Cyc ℝ)
-    (ha : 0 < c.amp) (hg : ValidR g) (hR : ValidR c.R) (hG' : TransformGuard (goodman M M2) g c) :
+    (ha : 0 < c.amp) (hg : ValidR g) (hR : ValidR c.R) :
     (transform (goodman M M2) g c).amp = goodmanClosed M M2 c.amp (c.amp * pos c.R) g := by
+  have hG' : TransformGuard (goodman M M2) g c := goodman_guard M M2 h0 h1 h2 g c hg hR
   have hp := transform_potential (hG M M2) (goodman M M2) g c (goodman_compat M M2 (by linarith) g hg) hG'
   unfold potential at hp
   rw [goodman_arrives_at_target M M2 g c hg hR, hG_goal M M2 h0 g hg, hG_cycle M M2 c.amp h0 ha] at hp
@@ -97,8 +102,9 @@ theorem goodman_eq_closed_form (M M2 : ℝ) (h0 : 0 ≤ M2) (h1 : 0 ≤ M) (h2 :
 
 /-- General form used below: amplitude after the transform, via the potential. -/
 theorem goodman_amp (M M2 : ℝ) (h0 : 0 ≤ M2) (h1 : 0 ≤ M) (h2 : M < 1) (g : ExtR ℝ) (c : Cyc ℝ)
-    (hg : ValidR g) (hR : ValidR c.R) (hG' : TransformGuard (goodman M M2) g c) :
+    (hg : ValidR g) (hR : ValidR c.R) :
     (transform (goodman M M2) g c).amp = c.amp * hG M M2 (pos c.R) / hG M M2 (pos g) := by
+  have hG' : TransformGuard (goodman M M2) g c := goodman_guard M M2 h0 h1 h2 g c hg hR
   have hp := transform_potential (hG M M2) (goodman M M2) g c (goodman_compat M M2 (by linarith) g hg) hG'
   unfold potential at hp
   rw [goodman_arrives_at_target M M2 g c hg hR] at hp
@@ -106,9 +112,9 @@ theorem goodman_amp (M M2 : ℝ) (h0 : 0 ≤ M2) (h1 : 0 ≤ M) (h2 : M < 1) (g 
 
 /-- A cycle that already is at the target R is unchanged. -/
 theorem goodman_fixes_target_R (M M2 : ℝ) (h0 : 0 ≤ M2) (h1 : 0 ≤ M) (h2 : M < 1) (c : Cyc ℝ)
-    (hR : ValidR c.R) (hG' : TransformGuard (goodman M M2) c.R c) :
+    (hR : ValidR c.R) :
     transform (goodman M M2) c.R c = c := by
-  have ha := goodman_amp M M2 h0 h1 h2 c.R c hR hR hG'
+  have ha := goodman_amp M M2 h0 h1 h2 c.R c hR hR
   have hr := goodman_arrives_at_target M M2 c.R c hR hR
   rw [mul_div_assoc, div_self (hG_pos M M2 h0 h1 h2 _).ne', mul_one] at ha
   cases hc : transform (goodman M M2) c.R c with
@@ -116,27 +122,22 @@ theorem goodman_fixes_target_R (M M2 : ℝ) (h0 : 0 ≤ M2) (h1 : 0 ≤ M) (h2 :
 
 /-- Transforming twice to the same R changes nothing. -/
 theorem goodman_idempotent (M M2 : ℝ) (h0 : 0 ≤ M2) (h1 : 0 ≤ M) (h2 : M < 1) (g : ExtR ℝ) (c : Cyc ℝ)
-    (hg : ValidR g) (hR : ValidR c.R)
-    (hG2 : TransformGuard (goodman M M2) g (transform (goodman M M2) g c)) :
+    (hg : ValidR g) (hR : ValidR c.R) :
     transform (goodman M M2) g (transform (goodman M M2) g c) = transform (goodman M M2) g c := by
   have hr := goodman_arrives_at_target M M2 g c hg hR
   have := goodman_fixes_target_R M M2 h0 h1 h2 (transform (goodman M M2) g c) (by rw [hr]; exact hg)
-    (by rw [hr]; exact hG2)
   rw [hr] at this; exact this
 
 /-- Path independence: to `g₁` and then to `g₂` equals to `g₂` directly. -/
 theorem goodman_path_independent (M M2 : ℝ) (h0 : 0 ≤ M2) (h1 : 0 ≤ M) (h2 : M < 1) (g₁ g₂ : ExtR ℝ) (c : Cyc ℝ)
-    (hg1 : ValidR g₁) (hg2 : ValidR g₂) (hR : ValidR c.R)
-    (hGa : TransformGuard (goodman M M2) g₁ c)
-    (hGb : TransformGuard (goodman M M2) g₂ (transform (goodman M M2) g₁ c))
-    (hGc : TransformGuard (goodman M M2) g₂ c) :
+    (hg1 : ValidR g₁) (hg2 : ValidR g₂) (hR : ValidR c.R) :
     transform (goodman M M2) g₂ (transform (goodman M M2) g₁ c) = transform (goodman M M2) g₂ c := by
   have r1 := goodman_arrives_at_target M M2 g₁ c hg1 hR
-  have a1 := goodman_amp M M2 h0 h1 h2 g₁ c hg1 hR hGa
+  have a1 := goodman_amp M M2 h0 h1 h2 g₁ c hg1 hR
   have r12 := goodman_arrives_at_target M M2 g₂ (transform (goodman M M2) g₁ c) hg2 (by rw [r1]; exact hg1)
-  have a12 := goodman_amp M M2 h0 h1 h2 g₂ (transform (goodman M M2) g₁ c) hg2 (by rw [r1]; exact hg1) hGb
+  have a12 := goodman_amp M M2 h0 h1 h2 g₂ (transform (goodman M M2) g₁ c) hg2 (by rw [r1]; exact hg1)
   have r2 := goodman_arrives_at_target M M2 g₂ c hg2 hR
-  have a2 := goodman_amp M M2 h0 h1 h2 g₂ c hg2 hR hGc
+  have a2 := goodman_amp M M2 h0 h1 h2 g₂ c hg2 hR
   rw [r1, a1, div_mul_cancel₀ _ (hG_pos M M2 h0 h1 h2 _).ne'] at a12
   cases hx : transform (goodman M M2) g₂ (transform (goodman M M2) g₁ c) with
   | mk a R =>
@@ -146,16 +147,39 @@ theorem goodman_path_independent (M M2 : ℝ) (h0 : 0 ≤ M2) (h1 : 0 ≤ M) (h2
 /-- On a fixed ray the result is linear in the amplitude with a positive factor (hence continuous and
 strictly increasing in the amplitude). -/
 theorem goodman_monotone_in_amplitude_fixed_R (M M2 : ℝ) (h0 : 0 ≤ M2) (h1 : 0 ≤ M) (h2 : M < 1) (g R : ExtR ℝ)
-    (a₁ a₂ : ℝ) (hg : ValidR g) (hR : ValidR R) (h12 : a₁ ≤ a₂)
-    (hGa : TransformGuard (goodman M M2) g ⟨a₁, R⟩) (hGb : TransformGuard (goodman M M2) g ⟨a₂, R⟩) :
+    (a₁ a₂ : ℝ) (hg : ValidR g) (hR : ValidR R) (h12 : a₁ ≤ a₂) :
     (transform (goodman M M2) g ⟨a₁, R⟩).amp ≤ (transform (goodman M M2) g ⟨a₂, R⟩).amp ∧
     (transform (goodman M M2) g ⟨a₂, R⟩).amp - (transform (goodman M M2) g ⟨a₁, R⟩).amp
       = (a₂ - a₁) * (hG M M2 (pos R) / hG M M2 (pos g)) := by
-  rw [goodman_amp M M2 h0 h1 h2 g ⟨a₁, R⟩ hg hR hGa, goodman_amp M M2 h0 h1 h2 g ⟨a₂, R⟩ hg hR hGb]
+  rw [goodman_amp M M2 h0 h1 h2 g ⟨a₁, R⟩ hg hR, goodman_amp M M2 h0 h1 h2 g ⟨a₂, R⟩ hg hR]
   have hp : 0 < hG M M2 (pos R) / hG M M2 (pos g) := div_pos (hG_pos M M2 h0 h1 h2 _) (hG_pos M M2 h0 h1 h2 _)
   constructor
   · simp only [mul_div_assoc]; nlinarith
   · ring
+
+/-- The guard of the FKM-Goodman theorems above is discharged once and for all (re-exported from
+`Proofs/Lemmas/MeanstressGuard.lean`). -/
+theorem goodman_guard_holds (M M2 : ℝ) (h0 : 0 ≤ M2) (h1 : 0 ≤ M) (h2 : M < 1) (g : ExtR ℝ) (c : Cyc ℝ)
+    (hg : ValidR g) (hR : ValidR c.R) : TransformGuard (goodman M M2) g c :=
+  goodman_guard M M2 h0 h1 h2 g c hg hR
+
+/-! #### Parameter sets without `M2`: `M2 = M / 3` -/
+
+/-- The default diagram is the FKM-Goodman diagram with `M2 = M/3` (the literal `3.0` is `3`). -/
+theorem goodmanDefault_eq (M : ℝ) : goodmanDefault M = goodman M (M / 3) := by
+  unfold goodmanDefault; norm_num
+
+/-- … and `M2 = M/3` is admissible (`0 ≤ M2 ≤ M`) whenever `0 ≤ M < 1`. -/
+theorem goodmanDefault_admissible (M : ℝ) (h1 : 0 ≤ M) (h2 : M < 1) : 0 ≤ M / 3 ∧ M / 3 ≤ M := by
+  have _ := h2   -- (the bound `M < 1` is part of the admissibility statement, not needed for `M2 = M/3`)
+  constructor <;> linarith
+
+/-- default M2 = M/3: closed form for every cycle and target -/
+theorem goodmanDefault_eq_closed_form (M : ℝ) (h1 : 0 ≤ M) (h2 : M < 1) (g : ExtR ℝ) (c : Cyc ℝ) (ha : 0 < c.amp)
+    (hg : ValidR g) (hR : ValidR c.R) :
+    (transform (goodmanDefault M) g c).amp = goodmanClosed M (M / 3) c.amp (c.amp * pos c.R) g := by
+  rw [goodmanDefault_eq]
+  exact goodman_eq_closed_form M (M / 3) (goodmanDefault_admissible M h1 h2).1 h1 h2 g c ha hg hR
 
 /-- At a fixed mean stress `m` the closed form is continuous and non-decreasing in the amplitude:
 `eqAmp` (and with it `goodmanClosed`, which divides by a positive constant) is monotone and 1-Lipschitz-bounded
@@ -245,7 +269,8 @@ theorem split_beyond_R1_fails_at_witness :
 
 /-! ### Non-vacuity: the hypotheses are satisfiable on cycles that cross segment borders -/
 
-/-- Guard for: M = 1/2, M2 = 1/6, cycle amplitude 1 at R = 1/2 (mean 3), target R = -∞ (crosses R = 0). -/
+/-- The guard computed by hand for: M = 1/2, M2 = 1/6, cycle amplitude 1 at R = 1/2 (mean 3), target R = -∞ (crosses
+R = 0).  (`goodman_guard` gives it for every cycle; kept as a concrete instance of what the guard says.) -/
 theorem guard_example : TransformGuard (goodman (1/2) (1/6)) ninf ⟨1, fin (1/2)⟩ := by
   unfold TransformGuard afterRight afterLeft
   rw [left_ninf, right_ninf, cont_ninf]
@@ -255,10 +280,46 @@ theorem guard_example : TransformGuard (goodman (1/2) (1/6)) ninf ⟨1, fin (1/2
 example : (transform (goodman (1/2) (1/6)) ninf ⟨1, fin (1/2)⟩).amp
     = goodmanClosed (1/2) (1/6) 1 (1 * pos (fin (1/2))) ninf :=
   goodman_eq_closed_form (1/2) (1/6) (by norm_num) (by norm_num) (by norm_num) ninf ⟨1, fin (1/2)⟩
-    (by norm_num) (by simp [ValidR]) (by simp [ValidR]) guard_example
+    (by norm_num) (by simp [ValidR]) (by simp [ValidR])
 
 /-- … and the closed form gives (1 + 1/2)·(1 + 3/6)/(1 + 1/6) / (1 - 1/2) = 27/7 for it. -/
 example : goodmanClosed (1/2) (1/6) 1 (1 * pos (fin (1/2))) ninf = 27/7 := by
+  norm_num [goodmanClosed, eqAmp, backFactor, pos]
+
+/-- A cycle in compression beyond R = 1 (amplitude 1, R = 3, mean -2) moved to R = 1/2 crosses all three segments. -/
+example : (transform (goodman (1/2) (1/6)) (fin (1/2)) ⟨1, fin 3⟩).amp
+    = goodmanClosed (1/2) (1/6) 1 (1 * pos (fin 3)) (fin (1/2)) :=
+  goodman_eq_closed_form (1/2) (1/6) (by norm_num) (by norm_num) (by norm_num) (fin (1/2)) ⟨1, fin 3⟩
+    (by norm_num) (by norm_num [ValidR]) (by norm_num [ValidR])
+
+example : goodmanClosed (1/2) (1/6) 1 (1 * pos (fin 3)) (fin (1/2)) = 7/27 := by
+  norm_num [goodmanClosed, eqAmp, backFactor, pos]
+
+example : transform (goodman (1/2 : ℝ) (1/6)) (fin (1/2)) ⟨1, fin (1/2)⟩ = ⟨1, fin (1/2)⟩ :=
+  goodman_fixes_target_R (1/2) (1/6) (by norm_num) (by norm_num) (by norm_num) ⟨1, fin (1/2)⟩ (by norm_num [ValidR])
+
+example : transform (goodman (1/2 : ℝ) (1/6)) (fin (-1)) (transform (goodman (1/2 : ℝ) (1/6)) (fin (-1)) ⟨1, fin 3⟩)
+    = transform (goodman (1/2 : ℝ) (1/6)) (fin (-1)) ⟨1, fin 3⟩ :=
+  goodman_idempotent (1/2) (1/6) (by norm_num) (by norm_num) (by norm_num) (fin (-1)) ⟨1, fin 3⟩
+    (by norm_num [ValidR]) (by norm_num [ValidR])
+
+example : transform (goodman (1/2 : ℝ) (1/6)) (fin (-1)) (transform (goodman (1/2 : ℝ) (1/6)) ninf ⟨1, fin (1/2)⟩)
+    = transform (goodman (1/2 : ℝ) (1/6)) (fin (-1)) ⟨1, fin (1/2)⟩ :=
+  goodman_path_independent (1/2) (1/6) (by norm_num) (by norm_num) (by norm_num) ninf (fin (-1)) ⟨1, fin (1/2)⟩
+    (by simp [ValidR]) (by norm_num [ValidR]) (by norm_num [ValidR])
+
+example : (transform (goodman (1/2 : ℝ) (1/6)) (fin (-1)) ⟨1, fin (1/2)⟩).amp
+    ≤ (transform (goodman (1/2 : ℝ) (1/6)) (fin (-1)) ⟨2, fin (1/2)⟩).amp :=
+  (goodman_monotone_in_amplitude_fixed_R (1/2) (1/6) (by norm_num) (by norm_num) (by norm_num) (fin (-1)) (fin (1/2)) 1 2
+    (by norm_num [ValidR]) (by norm_num [ValidR]) (by norm_num)).1
+
+/-- default `M2 = M/3` with M = 3/10: cycle of amplitude 1 at R = 1/2 to R = -1. -/
+example : (transform (goodmanDefault (3/10)) (fin (-1)) ⟨1, fin (1/2)⟩).amp
+    = goodmanClosed (3/10) ((3/10) / 3) 1 (1 * pos (fin (1/2))) (fin (-1)) :=
+  goodmanDefault_eq_closed_form (3/10) (by norm_num) (by norm_num) (fin (-1)) ⟨1, fin (1/2)⟩ (by norm_num)
+    (by norm_num [ValidR]) (by norm_num [ValidR])
+
+example : goodmanClosed (3/10) ((3/10) / 3) 1 (1 * pos (fin (1/2))) (fin (-1)) = 169/110 := by
   norm_num [goodmanClosed, eqAmp, backFactor, pos]
 
 example : (transform (goodman (1/2 : ℝ) (1/6)) ninf ⟨1, fin (1/2)⟩).R = ninf :=
